@@ -111,49 +111,49 @@ package mq
 //@   -- the will message is created by this call: its user property list is empty or was allocated since
 //@   invariant fresh(p.will) ==> (cap(p.will.UserProperties) == 0 || base(p.will.UserProperties) >= old($wm))
 //@   assigns *p, capelems(p.UserProperties), $elems, $alloc
-//@   ensures p.fixed == old(p.fixed)                                    #C16
+//@   ensures p.fixed == old(p.fixed)                                    #C16 #C02
 //@   ensures $elems - old($elems) <= len(data)                          #C05
 //@ func (*ConnAck).UnmarshalBinary
 //@   assigns *p, capelems(p.UserProperties), $elems, $alloc
-//@   ensures p.fixed == old(p.fixed)                                    #C16
+//@   ensures p.fixed == old(p.fixed)                                    #C16 #C02
 //@   ensures $elems - old($elems) <= len(data)                          #C05
 //@ func (*Publish).UnmarshalBinary
 //@   assigns *p, capelems(p.UserProperties), capelems(p.subscriptionIDs), $elems, $alloc
-//@   ensures p.fixed == old(p.fixed)                                    #C16
+//@   ensures p.fixed == old(p.fixed)                                    #C16 #C02
 //@   ensures $elems - old($elems) <= len(data)                          #C05
 //@ func (*PubAck).UnmarshalBinary
 //@   assigns *p, capelems(p.UserProperties), $elems, $alloc
-//@   ensures p.fixed == old(p.fixed)                                    #C16
+//@   ensures p.fixed == old(p.fixed)                                    #C16 #C02
 //@   ensures $elems - old($elems) <= len(data)                          #C05
 //@ func (*PubRec).UnmarshalBinary
 //@   assigns *p, capelems(p.UserProperties), $elems, $alloc
-//@   ensures p.fixed == old(p.fixed)                                    #C16
+//@   ensures p.fixed == old(p.fixed)                                    #C16 #C02
 //@   ensures $elems - old($elems) <= len(data)                          #C05
 //@ func (*PubRel).UnmarshalBinary
 //@   assigns *p, capelems(p.UserProperties), $elems, $alloc
-//@   ensures p.fixed == old(p.fixed)                                    #C16
+//@   ensures p.fixed == old(p.fixed)                                    #C16 #C02
 //@   ensures $elems - old($elems) <= len(data)                          #C05
 //@ func (*PubComp).UnmarshalBinary
 //@   assigns *p, capelems(p.UserProperties), $elems, $alloc
-//@   ensures p.fixed == old(p.fixed)                                    #C16
+//@   ensures p.fixed == old(p.fixed)                                    #C16 #C02
 //@   ensures $elems - old($elems) <= len(data)                          #C05
 //@ func (*Subscribe).UnmarshalBinary
 //@   -- C16 is claimed for packets as ReadPacket creates them (no filters yet): appending in place
 //@   -- into spare capacity of an existing filter list cannot be separated from the receiver's own
 //@   -- fields in the flat memory model
-//@   requires cap(p.filters) == 0                                       #C16
+//@   requires cap(p.filters) == 0                                       #C16 #C02
 //@   assigns *p, capelems(p.UserProperties), capelems(p.filters), $elems, $alloc
-//@   ensures p.fixed == old(p.fixed)                                    #C16
+//@   ensures p.fixed == old(p.fixed)                                    #C16 #C02
 //@   ensures $elems - old($elems) <= len(data)                          #C05
 //@   loop 0:
 //@     invariant 0 <= b.i && b.i <= len(data) && b.data == data
-//@     invariant p.fixed == old(p.fixed) && (cap(p.filters) == 0 || base(p.filters) >= old($wm))   #C16
+//@     invariant p.fixed == old(p.fixed) && (cap(p.filters) == 0 || base(p.filters) >= old($wm))   #C16 #C02
 //@     invariant b.err == nil ==> $elems - old($elems) <= b.i            #C05
 //@     invariant $elems - old($elems) <= len(data)                      #C05
 //@     decreases b.err == nil ? 1 + len(data) - b.i : 0
 //@ func (*SubAck).UnmarshalBinary
 //@   assigns *p, capelems(p.UserProperties), $elems, $alloc
-//@   ensures p.fixed == old(p.fixed)                                    #C16
+//@   ensures p.fixed == old(p.fixed)                                    #C16 #C02
 //@   ensures $elems - old($elems) <= len(data)                          #C05
 //@   ensures len(p.reasonCodes) <= len(data)                            #C05
 //@   loop 0:
@@ -164,19 +164,19 @@ package mq
 //@   -- C16 is claimed for packets as ReadPacket creates them (no filters yet): appending in place
 //@   -- into spare capacity of an existing filter list cannot be separated from the receiver's own
 //@   -- fields in the flat memory model
-//@   requires cap(p.filters) == 0                                       #C16
+//@   requires cap(p.filters) == 0                                       #C16 #C02
 //@   assigns *p, capelems(p.UserProperties), capelems(p.filters), $elems, $alloc
-//@   ensures p.fixed == old(p.fixed)                                    #C16
+//@   ensures p.fixed == old(p.fixed)                                    #C16 #C02
 //@   ensures $elems - old($elems) <= len(data)                          #C05
 //@   loop 0:
 //@     invariant 0 <= b.i && b.i <= len(data) && b.data == data
-//@     invariant p.fixed == old(p.fixed) && (cap(p.filters) == 0 || base(p.filters) >= old($wm))   #C16
+//@     invariant p.fixed == old(p.fixed) && (cap(p.filters) == 0 || base(p.filters) >= old($wm))   #C16 #C02
 //@     invariant b.err == nil ==> $elems - old($elems) <= b.i            #C05
 //@     invariant $elems - old($elems) <= len(data)                      #C05
 //@     decreases b.err == nil ? 1 + len(data) - b.i : 0
 //@ func (*UnsubAck).UnmarshalBinary
 //@   assigns *p, capelems(p.UserProperties), $elems, $alloc
-//@   ensures p.fixed == old(p.fixed)                                    #C16
+//@   ensures p.fixed == old(p.fixed)                                    #C16 #C02
 //@   ensures $elems - old($elems) <= len(data)                          #C05
 //@   ensures len(p.reasonCodes) <= len(data)                            #C05
 //@   loop 0:
@@ -185,19 +185,19 @@ package mq
 //@     decreases len(p.reasonCodes) - rangeindex
 //@ func (*PingReq).UnmarshalBinary
 //@   assigns *p, $elems, $alloc
-//@   ensures p.fixed == old(p.fixed)                                    #C16
+//@   ensures p.fixed == old(p.fixed)                                    #C16 #C02
 //@   ensures $elems - old($elems) <= len(data)                          #C05
 //@ func (*PingResp).UnmarshalBinary
 //@   assigns *p, $elems, $alloc
-//@   ensures p.fixed == old(p.fixed)                                    #C16
+//@   ensures p.fixed == old(p.fixed)                                    #C16 #C02
 //@   ensures $elems - old($elems) <= len(data)                          #C05
 //@ func (*Disconnect).UnmarshalBinary
 //@   assigns *p, capelems(p.UserProperties), $elems, $alloc
-//@   ensures p.fixed == old(p.fixed)                                    #C16
+//@   ensures p.fixed == old(p.fixed)                                    #C16 #C02
 //@   ensures $elems - old($elems) <= len(data)                          #C05
 //@ func (*Auth).UnmarshalBinary
 //@   assigns *p, capelems(p.UserProperties), $elems, $alloc
-//@   ensures p.fixed == old(p.fixed)                                    #C16
+//@   ensures p.fixed == old(p.fixed)                                    #C16 #C02
 //@   ensures $elems - old($elems) <= len(data)                          #C05
 //@ func (*Undefined).UnmarshalBinary
 //@   assigns *p, $elems, $alloc
@@ -917,61 +917,73 @@ package mq
 //@   let pl = (p.receiveMax == 0 ? 0 : 3) + (p.sessionExpiryInterval == 0 ? 0 : 5) + (p.maxQoS == 0 ? 0 : 2) + (p.retainAvailable ? 2 : 0) + (p.maxPacketSize == 0 ? 0 : 5) + (len(p.assignedClientID) == 0 ? 0 : 3 + len(p.assignedClientID)) + (p.topicAliasMax == 0 ? 0 : 3) + (len(p.reasonString) == 0 ? 0 : 3 + len(p.reasonString)) + (p.wildcardSubAvailable ? 2 : 0) + (p.subIdentifiersAvailable ? 2 : 0) + (p.sharedSubAvailable ? 2 : 0) + (p.serverKeepAlive == 0 ? 0 : 3) + (len(p.responseInformation) == 0 ? 0 : 3 + len(p.responseInformation)) + (len(p.serverReference) == 0 ? 0 : 3 + len(p.serverReference)) + (len(p.authMethod) == 0 ? 0 : 3 + len(p.authMethod)) + (len(p.authData) == 0 ? 0 : 3 + len(p.authData)) + upwidth(p.UserProperties, len(p.UserProperties))
 //@   let rl = 2 + specVbWidth(uint(pl)) + pl
 //@   ensures result == i + 1 + specVbWidth(uint(rl)) + rl                                   #C10 #C02
+//@   ensures forall k in 0..specVbWidth(uint(rl)): result <= len(b) ==> b[i+1+k] == specVbByte(uint(rl), k)   #C02
 
 //@ func (*Publish).fill
 //@   let pl = (p.payloadFormat ? 2 : 0) + (p.messageExpiryInterval == 0 ? 0 : 5) + (p.topicAlias == 0 ? 0 : 3) + (len(p.responseTopic) == 0 ? 0 : 3 + len(p.responseTopic)) + (len(p.correlationData) == 0 ? 0 : 3 + len(p.correlationData)) + (len(p.contentType) == 0 ? 0 : 3 + len(p.contentType)) + upwidth(p.UserProperties, len(p.UserProperties)) + sidwidth(p.subscriptionIDs, len(p.subscriptionIDs))
 //@   let rl = 2 + len(p.topicName) + (((p.fixed & 6) == 2 || (p.fixed & 6) == 4) ? 2 : 0) + specVbWidth(uint(pl)) + pl + len(p.payload)
 //@   ensures result == i + 1 + specVbWidth(uint(rl)) + rl                                   #C10 #C02
+//@   ensures forall k in 0..specVbWidth(uint(rl)): result <= len(b) ==> b[i+1+k] == specVbByte(uint(rl), k)   #C02
 
 //@ func (*PubAck).fill
 //@   let pl = (len(p.reason) == 0 ? 0 : 3 + len(p.reason)) + upwidth(p.UserProperties, len(p.UserProperties))
 //@   let rl = 2 + (p.reasonCode == 0 ? 0 : 1) + (pl > 0 ? specVbWidth(uint(pl)) + pl : 0)
 //@   ensures result == i + 1 + specVbWidth(uint(rl)) + rl                                   #C10 #C02
+//@   ensures forall k in 0..specVbWidth(uint(rl)): result <= len(b) ==> b[i+1+k] == specVbByte(uint(rl), k)   #C02
 
 //@ func (*PubRec).fill
 //@   let pl = (len(p.reason) == 0 ? 0 : 3 + len(p.reason)) + upwidth(p.UserProperties, len(p.UserProperties))
 //@   let rl = 2 + (p.reasonCode == 0 ? 0 : 1) + (pl > 0 ? specVbWidth(uint(pl)) + pl : 0)
 //@   ensures result == i + 1 + specVbWidth(uint(rl)) + rl                                   #C10 #C02
+//@   ensures forall k in 0..specVbWidth(uint(rl)): result <= len(b) ==> b[i+1+k] == specVbByte(uint(rl), k)   #C02
 
 //@ func (*PubRel).fill
 //@   let pl = (len(p.reason) == 0 ? 0 : 3 + len(p.reason)) + upwidth(p.UserProperties, len(p.UserProperties))
 //@   let rl = 2 + (p.reasonCode == 0 ? 0 : 1) + (pl > 0 ? specVbWidth(uint(pl)) + pl : 0)
 //@   ensures result == i + 1 + specVbWidth(uint(rl)) + rl                                   #C10 #C02
+//@   ensures forall k in 0..specVbWidth(uint(rl)): result <= len(b) ==> b[i+1+k] == specVbByte(uint(rl), k)   #C02
 
 //@ func (*PubComp).fill
 //@   let pl = (len(p.reason) == 0 ? 0 : 3 + len(p.reason)) + upwidth(p.UserProperties, len(p.UserProperties))
 //@   let rl = 2 + (p.reasonCode == 0 ? 0 : 1) + (pl > 0 ? specVbWidth(uint(pl)) + pl : 0)
 //@   ensures result == i + 1 + specVbWidth(uint(rl)) + rl                                   #C10 #C02
+//@   ensures forall k in 0..specVbWidth(uint(rl)): result <= len(b) ==> b[i+1+k] == specVbByte(uint(rl), k)   #C02
 
 //@ func (*Subscribe).fill
 //@   let pl = upwidth(p.UserProperties, len(p.UserProperties)) + (p.subscriptionID == nil ? 0 : (*p.subscriptionID == 0 ? 0 : 1 + specVbWidth(uint(*p.subscriptionID))))
 //@   let rl = 2 + specVbWidth(uint(pl)) + pl + tfwidth(p.filters, len(p.filters))
 //@   ensures result == i + 1 + specVbWidth(uint(rl)) + rl                                   #C10 #C02
+//@   ensures forall k in 0..specVbWidth(uint(rl)): result <= len(b) ==> b[i+1+k] == specVbByte(uint(rl), k)   #C02
 
 //@ func (*SubAck).fill
 //@   let pl = (len(p.reasonString) == 0 ? 0 : 3 + len(p.reasonString)) + upwidth(p.UserProperties, len(p.UserProperties))
 //@   let rl = 2 + specVbWidth(uint(pl)) + pl + len(p.reasonCodes)
 //@   ensures result == i + 1 + specVbWidth(uint(rl)) + rl                                   #C10 #C02
+//@   ensures forall k in 0..specVbWidth(uint(rl)): result <= len(b) ==> b[i+1+k] == specVbByte(uint(rl), k)   #C02
 
 //@ func (*UnsubAck).fill
 //@   let pl = (len(p.reasonString) == 0 ? 0 : 3 + len(p.reasonString)) + upwidth(p.UserProperties, len(p.UserProperties))
 //@   let rl = 2 + specVbWidth(uint(pl)) + pl + len(p.reasonCodes)
 //@   ensures result == i + 1 + specVbWidth(uint(rl)) + rl                                   #C10 #C02
+//@   ensures forall k in 0..specVbWidth(uint(rl)): result <= len(b) ==> b[i+1+k] == specVbByte(uint(rl), k)   #C02
 
 //@ func (*Unsubscribe).fill
 //@   let pl = upwidth(p.UserProperties, len(p.UserProperties))
 //@   let rl = 2 + specVbWidth(uint(pl)) + pl + wswidth(p.filters, len(p.filters))
 //@   ensures result == i + 1 + specVbWidth(uint(rl)) + rl                                   #C10 #C02
+//@   ensures forall k in 0..specVbWidth(uint(rl)): result <= len(b) ==> b[i+1+k] == specVbByte(uint(rl), k)   #C02
 
 //@ func (*Disconnect).fill
 //@   let pl = upwidth(p.UserProperties, len(p.UserProperties))
 //@   let rl = ((p.reasonCode == 0 && pl == 0) ? 0 : 1 + specVbWidth(uint(pl)) + pl)
 //@   ensures result == i + 1 + specVbWidth(uint(rl)) + rl                                   #C10 #C02
+//@   ensures forall k in 0..specVbWidth(uint(rl)): result <= len(b) ==> b[i+1+k] == specVbByte(uint(rl), k)   #C02
 
 //@ func (*Auth).fill
 //@   let pl = (len(p.authMethod) == 0 ? 0 : 3 + len(p.authMethod)) + (len(p.authData) == 0 ? 0 : 3 + len(p.authData)) + (len(p.reasonString) == 0 ? 0 : 3 + len(p.reasonString)) + upwidth(p.UserProperties, len(p.UserProperties))
 //@   let rl = ((p.reasonCode == 0 && pl == 0) ? 0 : 1 + specVbWidth(uint(pl)) + pl)
 //@   ensures result == i + 1 + specVbWidth(uint(rl)) + rl                                   #C10 #C02
+//@   ensures forall k in 0..specVbWidth(uint(rl)): result <= len(b) ==> b[i+1+k] == specVbByte(uint(rl), k)   #C02
 
 //@ func (*Connect).fill
 //@   let pl = (p.receiveMax == 0 ? 0 : 3) + (p.sessionExpiryInterval == 0 ? 0 : 5) + (p.maxPacketSize == 0 ? 0 : 5) + (p.topicAliasMax == 0 ? 0 : 3) + (p.requestResponseInfo ? 2 : 0) + (p.requestProblemInfo ? 2 : 0) + (len(p.authMethod) == 0 ? 0 : 3 + len(p.authMethod)) + (len(p.authData) == 0 ? 0 : 3 + len(p.authData)) + upwidth(p.UserProperties, len(p.UserProperties))
@@ -980,6 +992,7 @@ package mq
 //@   let credw = ((p.flags & 128) != 0 ? 2 + len(p.username) : 0) + ((p.flags & 64) != 0 ? 2 + len(p.password) : 0)
 //@   let rl = 2 + len(p.protocolName) + 1 + 1 + 2 + specVbWidth(uint(pl)) + pl + 2 + len(p.clientID) + willw + credw
 //@   ensures result == i + 1 + specVbWidth(uint(rl)) + rl                                   #C10 #C02
+//@   ensures forall k in 0..specVbWidth(uint(rl)): result <= len(b) ==> b[i+1+k] == specVbByte(uint(rl), k)   #C02
 
 //@ func (*PingReq).fill
 //@   ensures result == i + 2                                                                #C10 #C02
@@ -1192,3 +1205,68 @@ package mq
 
 //@ func (*fixedHeader).ReadRemaining
 //@   ensures $rejected > old($rejected) ==> result0 == nil && result1 != nil                #C09
+
+// ---------------------------------------------------------------- first byte: type and reserved flags (C02)
+// MQTT 2.1.2/2.1.3: type in the upper nibble; PUBREL, SUBSCRIBE, UNSUBSCRIBE carry 0b0010, all others 0 (PUBLISH: DUP/QoS/RETAIN).
+
+//@ type-invariant (*Connect): self.fixed == 16                                               #C02
+//@ type-invariant (*ConnAck): self.fixed == 32                                               #C02
+//@ type-invariant (*PubAck): self.fixed == 64                                               #C02
+//@ type-invariant (*PubRec): self.fixed == 80                                               #C02
+//@ type-invariant (*PubRel): self.fixed == 98                                               #C02
+//@ type-invariant (*PubComp): self.fixed == 112                                               #C02
+//@ type-invariant (*Subscribe): self.fixed == 130                                               #C02
+//@ type-invariant (*SubAck): self.fixed == 144                                               #C02
+//@ type-invariant (*Unsubscribe): self.fixed == 162                                               #C02
+//@ type-invariant (*UnsubAck): self.fixed == 176                                               #C02
+//@ type-invariant (*PingReq): self.fixed == 192                                               #C02
+//@ type-invariant (*PingResp): self.fixed == 208                                               #C02
+//@ type-invariant (*Disconnect): self.fixed == 224                                               #C02
+//@ type-invariant (*Auth): self.fixed == 240                                               #C02
+//@ type-invariant (*Publish): (self.fixed & 240) == 48                                      #C02
+
+//@ func NewConnect
+//@   ensures result.fixed == 16                                                            #C02
+
+//@ func NewConnAck
+//@   ensures result != nil && fresh(result) && result.fixed == 32                          #C02
+
+//@ func NewPubAck
+//@   ensures result != nil && fresh(result) && result.fixed == 64                          #C02
+
+//@ func NewPubRec
+//@   ensures result != nil && fresh(result) && result.fixed == 80                          #C02
+
+//@ func NewPubRel
+//@   ensures result != nil && fresh(result) && result.fixed == 98                          #C02
+
+//@ func NewPubComp
+//@   ensures result != nil && fresh(result) && result.fixed == 112                          #C02
+
+//@ func NewSubscribe
+//@   ensures result != nil && fresh(result) && result.fixed == 130                          #C02
+
+//@ func NewSubAck
+//@   ensures result != nil && fresh(result) && result.fixed == 144                          #C02
+
+//@ func NewUnsubscribe
+//@   ensures result != nil && fresh(result) && result.fixed == 162                          #C02
+
+//@ func NewUnsubAck
+//@   ensures result != nil && fresh(result) && result.fixed == 176                          #C02
+
+//@ func NewPingReq
+//@   ensures result != nil && fresh(result) && result.fixed == 192                          #C02
+
+//@ func NewPingResp
+//@   ensures result != nil && fresh(result) && result.fixed == 208                          #C02
+
+//@ func NewDisconnect
+//@   ensures result != nil && fresh(result) && result.fixed == 224                          #C02
+
+//@ func NewAuth
+//@   ensures result != nil && fresh(result) && result.fixed == 240                          #C02
+
+//@ func NewPublish
+//@   ensures result != nil && fresh(result) && (result.fixed & 240) == 48                   #C02
+
